@@ -20,7 +20,31 @@ fn keycode(v: &Value) -> u16 {
         return n as u16;
     }
     let s = v.as_str().expect("key must be a number or a one-character string");
-    let c = s.chars().next().unwrap();
+    keycode_of(s.chars().next().unwrap())
+}
+
+pub(crate) fn has_key(c: char) -> bool {
+    c.is_ascii_alphanumeric() || "`~!@#$%^&*()_+-=[]\\{}|;',./:\"<>?".contains(c)
+}
+
+pub(crate) fn data_dir() -> String { std::env::var("VERIF_DATA_DIR").unwrap_or("/repo/data".into()) }
+pub(crate) fn synthetic_layout() -> String { std::env::var("VERIF_SYNTH_LAYOUT").unwrap_or("/verif/data/synthetic_layout.json".into()) }
+pub(crate) fn probhat_layout() -> String { format!("{}/Probhat.json", data_dir()) }
+pub(crate) fn gen_file(name: &str) -> String { format!("{}/{}", std::env::var("VERIF_GEN_DIR").unwrap_or("/verif/build/gen".into()), name) }
+pub(crate) fn user_dir() -> String { format!("{}/openbangla-keyboard", std::env::var("XDG_DATA_HOME").expect("XDG_DATA_HOME")) }
+pub(crate) fn user_file_path(name: &str) -> String { format!("{}/{}", user_dir(), name) }
+pub(crate) fn read_user_file(name: &str) -> Option<String> { std::fs::read_to_string(user_file_path(name)).ok() }
+pub(crate) fn reset_user_files() {
+    std::fs::create_dir_all(user_dir()).unwrap();
+    for f in ["phonetic-candidate-selection.json", "autocorrect.json"] { let _ = std::fs::remove_file(user_file_path(f)); }
+}
+pub(crate) fn remove_user_dir() { let _ = std::fs::remove_dir_all(user_dir()); }
+pub(crate) fn set_mtime(path: &str, secs: u64) {
+    let f = std::fs::OpenOptions::new().write(true).open(path).unwrap();
+    f.set_modified(std::time::UNIX_EPOCH + std::time::Duration::from_secs(secs)).unwrap();
+}
+
+pub(crate) fn keycode_of(c: char) -> u16 {
     match c {
         'a'..='z' => 0xA096 + (c as u16 - 'a' as u16),
         'A'..='Z' => 0xA0B4 + (c as u16 - 'A' as u16),
@@ -31,6 +55,7 @@ fn keycode(v: &Value) -> u16 {
         '-' => 0x000C, '=' => 0x000D, '[' => 0x001A, ']' => 0x001B, '\\' => 0x002B, '{' => 0x005B, '}' => 0x005C,
         '|' => 0x005D, ';' => 0x0027, '\'' => 0x0028, ',' => 0x0033, '.' => 0x0034, '/' => 0x0035, ':' => 0x0063,
         '"' => 0x0064, '<' => 0x0065, '>' => 0x0066, '?' => 0x0067,
+        '\u{8}' => 0xFFFF, // not a key: used by generators for "backspace"
         _ => panic!("no key for {c}"),
     }
 }
@@ -42,7 +67,19 @@ pub(crate) fn make_config(c: &Value) -> Config {
     if let Some(d) = c["database_dir"].as_str() {
         assert!(cfg.set_database_dir(d));
     }
-    apply_options(&mut cfg, c);
+    if let Some(order) = c["setter_order"].as_array() {
+        // options applied in the given order (the C setters are order sensitive if the engine couples options)
+        for k in order {
+            let mut one = json!({});
+            one[k.as_str().unwrap()] = c[k.as_str().unwrap()].clone();
+            apply_options(&mut cfg, &one);
+        }
+        let mut rest = c.clone();
+        for k in order { rest.as_object_mut().unwrap().remove(k.as_str().unwrap()); }
+        apply_options(&mut cfg, &rest);
+    } else {
+        apply_options(&mut cfg, c);
+    }
     cfg
 }
 
@@ -81,8 +118,10 @@ pub(crate) fn run_history(h: &Value) -> Value {
         let dir = format!("{d}/openbangla-keyboard");
         if h["no_user_dir"].as_bool() != Some(true) {
             std::fs::create_dir_all(&dir).unwrap();
-            for f in ["phonetic-candidate-selection.json", "autocorrect.json"] {
-                let _ = std::fs::remove_file(format!("{dir}/{f}"));
+            if h["keep_files"].as_bool() != Some(true) {
+                for f in ["phonetic-candidate-selection.json", "autocorrect.json"] {
+                    let _ = std::fs::remove_file(format!("{dir}/{f}"));
+                }
             }
         }
         if let Some(files) = h["files"].as_object() {
@@ -141,6 +180,8 @@ pub(crate) fn run_history(h: &Value) -> Value {
             } else if let Some(n) = ev.get("read") {
                 let d = h["user_dir"].as_str().unwrap();
                 json!({"content": std::fs::read_to_string(format!("{d}/openbangla-keyboard/{}", n.as_str().unwrap())).ok()})
+            } else if ev.get("note").is_some() {
+                json!("note")
             } else if ev == "new_context" {
                 ctx = RitiContext::new_with_config(&cfg);
                 json!("new_context")
@@ -173,11 +214,18 @@ pub fn main() {
             }
         }
         Some("bounded") => {
+            if std::env::var("XDG_DATA_HOME").is_err() {
+                let d = format!("/tmp/riti-verif-ud-{}", std::process::id());
+                std::env::set_var("XDG_DATA_HOME", &d);
+            }
+            reset_user_files();
             let name = args.get(2).expect("bounded <check> <bound> [shard n]");
             let bound: usize = args.get(3).map(|s| s.parse().unwrap()).unwrap_or(4);
             let shard: usize = args.get(4).map(|s| s.parse().unwrap()).unwrap_or(0);
             let nshards: usize = args.get(5).map(|s| s.parse().unwrap()).unwrap_or(1);
             let r = bounded::run(name, bound, shard, nshards);
+            let ud = std::env::var("XDG_DATA_HOME").unwrap();
+            if ud.starts_with("/tmp/riti-verif-ud-") { let _ = std::fs::remove_dir_all(&ud); }
             println!("{r}");
         }
         _ => {
